@@ -4,7 +4,8 @@ image, and how edits behave on the reopened object).
 
 A case is an edit HISTORY (the generators of master_rr_cases.py / account_rr_traces.py, plus two kinds of its own:
 'order' = continuation blocks whose creation order differs from the walk order, 'xa' = a Rock Ridge name that puts
-b'XA' where XARecord.parse looks for a Yellow Book record).  `render(case)`:
+b'XA' where XARecord.parse looks for a Yellow Book record: open raised before commit ac63ee2, a case whose open raises
+PyCdlibInvalidISO is rendered with an empty graph and must be answered PInvalid by the model).  `render(case)`:
   1. replays the history on `new(interchange_level=3, rock_ridge=VERSION)` (time.time pinned), writes the image into
      memory WITHOUT closing the object, cuts every directory extent and continuation block out of it (master_rr_cases.cut);
   2. opens the bytes with a NEW PyCdlib object and reads the object graph off it: per directory (walk order) the
